@@ -199,7 +199,14 @@ class BackendProvider(ABC):
         """
         Floor a value and convert to integer.
         """
+        if np.asarray(a).dtype.kind in 'iu':
+            # integers are already floored; the detour through float64 rounded
+            # every |n| > 2**53 (_9007199254740993 gave 9007199254740992)
+            return a
         result = np.floor(np.asarray(a, dtype=float))
+        if not np.all(np.abs(result) < 2.0**63):
+            # no integer can hold it (astype wrapped _1e100 to -2**63): a floored real
+            return result
         return result.astype(int) if hasattr(result, 'astype') else int(result)
 
     def power(self, a, b):
